@@ -1068,6 +1068,10 @@ impl Property for C10 {
         }
 
         // ---- p: corpus property lists -----------------------------------------------------
+        // debugging aid: C10_SKIP_H=1 leaves the header sweeps out
+        if std::env::var("C10_SKIP_H").is_ok() {
+            v.retain(|c| !c.starts_with('h'));
+        }
         let pls = self.corpus_files(&["plst", "pl"]);
         let mut r = rng.fork();
         for (rel, len) in &pls {
@@ -1095,6 +1099,11 @@ impl Property for C10 {
 
     fn run_case(&mut self, case: &str, drv: &mut Driver) -> CaseOutcome {
         let mut out = CaseOutcome::default();
+        // debugging aid: C10_TRACE=<file> records the case being run (to find a case that
+        // kills the process, e.g. by a stack overflow, which `caught` cannot intercept)
+        if let Ok(path) = std::env::var("C10_TRACE") {
+            let _ = std::fs::write(path, case);
+        }
         let (cmd, rest) = case.split_once(' ').unwrap_or((case, ""));
         match cmd {
             "hs" | "hc" => {
